@@ -1,6 +1,7 @@
 import FuModel.Base.Wire
 import FuModel.Find.Run
 import FuModel.Spec.RunRef
+import FuModel.Find.StartPoints
 
 /-!
 Driver verb `find`: a whole run of find on an observed world.
@@ -111,6 +112,59 @@ def handle (verb : String) (args : List String) : Option String :=
     pure (showRes (run r.follow r.roots r.args))
   | _ => none
 
+/-- `name=world;name=world…` -/
+def parseWorldMap (s : String) : Option (List (Bytes × Option (Node Attr))) :=
+  if s == "." then some [] else (s.splitOn ";").mapM parseRoot
+
+def lookupRoots (m : List (Bytes × Option (Node Attr))) (names : List Bytes) : Option (List (Bytes × Option (Node Attr))) :=
+  names.mapM fun n => (m.lookup n).map fun w => (n, w)
+
+def bytesOfChars (cs : List Char) : Bytes := (String.ofList cs).toUTF8.toList
+
+structure ReqV where
+  follow : Follow
+  roots : List (Bytes × Option (Node Attr))
+  args : List Arg
+  extraDiag : Bool
+
+/-- `findv <leading argv words> <world map> <args>`: the model scans flags and operands itself -/
+def parseReqV : List String → Option ReqV
+  | [words, wm, args] => do
+    let ws ← (splitList words).mapM charsOfHex
+    let m ← parseWorldMap wm
+    let args ← (splitList args).mapM parseArg
+    let ld := parseLeading ws
+    if !ld.rest.isEmpty then none
+    let roots ← lookupRoots m (ld.paths.map bytesOfChars)
+    pure ⟨ld.follow, roots, args, false⟩
+  | _ => none
+
+/-- `find0 <P|H|L> <content of the -files0-from file> <world map> <args>` -/
+def parseReq0 : List String → Option ReqV
+  | [f, content, wm, args] => do
+    let f ← parseFollow f
+    let content ← bytesOfHex content
+    let m ← parseWorldMap wm
+    let args ← (splitList args).mapM parseArg
+    let (names, dg) := files0 content
+    let roots ← lookupRoots m names
+    pure ⟨f, roots, Arg.tok (.prim .opt) :: args, dg⟩
+  | _ => none
+
+def showResV (extra : Bool) : Option RunRes → String
+  | some r => s!"st={r.ret} diags={r.diags + (if extra then 1 else 0)} out={hexOfBytes r.out}"
+  | none => "st=1 diags=1 out=-"
+
+def handleV (verb : String) (args : List String) : Option String :=
+  match verb with
+  | "findv" => do
+    let r ← parseReqV args
+    pure (showResV r.extraDiag (run r.follow r.roots r.args))
+  | "find0" => do
+    let r ← parseReq0 args
+    pure (showResV r.extraDiag (run r.follow r.roots r.args))
+  | _ => none
+
 def parseObs : List String → Option (Nat × Nat × Bytes)
   | [st, dg, out] => do
     let st ← (st.dropPrefix? "st=").bind (·.toString.toNat?)
@@ -135,6 +189,30 @@ def predFindSet (req obs : List String) : Option Bool :=
     let r ← parseReq rest
     match parseObs obs with
     | some (st, _, out) => pure (FuModel.Find.RunRef.predFindSet r.follow r.roots r.args st out)
+    | none => pure false
+  | _ => none
+
+/-- reference reading of a -files0-from file: the NUL-separated names, a final NUL optional,
+    empty names skipped -/
+def specNames (content : Bytes) : List Bytes := (content.splitOn 0).filter (!·.isEmpty)
+
+/-- C18: starting points given as operands or through -files0-from -/
+def predC18 (req obs : List String) : Option Bool :=
+  match req with
+  | "find" :: _ => predFind req obs
+  | "findv" :: rest => do
+    let r ← parseReqV rest
+    match parseObs obs with
+    | some (st, _, out) => pure (FuModel.Find.RunRef.predFind r.follow r.roots r.args st out)
+    | none => pure false
+  | ["find0", f, content, wm, args] => do
+    let f ← parseFollow f
+    let content ← bytesOfHex content
+    let m ← parseWorldMap wm
+    let args ← (splitList args).mapM parseArg
+    let roots ← lookupRoots m (specNames content)
+    match parseObs obs with
+    | some (st, _, out) => pure (FuModel.Find.RunRef.predFind f roots (Arg.tok (.prim .opt) :: args) st out)
     | none => pure false
   | _ => none
 
